@@ -40,8 +40,8 @@ COVER = {
     "yule": ("yule", "M_yule"),
 }
 # registry functions outside the translator's subset (fail-closed; they are tied by the correspondence only)
-NOT_TRANSLATED = {"ll_dirichlet": "array comparisons / helper functions on arrays (approx_log_Gamma) outside the py2coq subset",
-                  "symmetric_kl": "in-place smoothing of argument copies with array slices outside the py2coq subset"}
+NOT_TRANSLATED = {}   # every registry metric is translated (ll_dirichlet with its helpers approx_log_Gamma / log_beta / log_single_beta, symmetric_kl)
+LINK_HELPERS = ("approx_log_Gamma", "log_beta", "log_single_beta")   # scalar helpers of ll_dirichlet: translated and linked too
 ROBUST_LINK = ("euclidean", "manhattan", "minkowski", "standardised_euclidean")   # also linked up to the ring laws (over R)
 DISCRETE_DEFAULT = ("categorical", "hierarchical_categorical", "ordinal", "count", "string")
 BINARY = ("hamming", "jaccard", "dice", "matching", "kulsinski", "rogerstanimoto", "russellrao", "sokalsneath", "sokalmichener", "yule")
@@ -595,6 +595,8 @@ def run(ctx):
     names = source_tie(ctx)
     # translation tie: Gallina regenerated from the current umap/distances.py; link theorems src_f = d_f re-checked
     fns = sorted({COVER[k][0] for k in names if COVER[k][0] not in NOT_TRANSLATED})
+    if "ll_dirichlet" in fns:
+        fns += list(LINK_HELPERS)      # its scalar helpers are translated functions with link theorems of their own
     lres = link.check(ctx, "distances", {fn: ("src_%s_eq" % fn, "src_%s_eqR" % fn) if fn in ROBUST_LINK else "src_%s_eq" % fn for fn in fns},
                       NOT_TRANSLATED)
     # capstone corollaries (coq/link/K_distances.v): the P_C12 statements restated about the translated source itself
